@@ -495,6 +495,26 @@ func rC18OptionList(w *World, r *Report) {
 		ru.Bad("option-scan", w.Pos(fn.Pos()), "helpOutput does not range over the node's own option table")
 		return
 	}
+	// the record of the key: the range value, or a lookup of the key in the same table
+	isVal := func(v ssa.Value) bool {
+		if v == val && val != nil {
+			return true
+		}
+		var lk *ssa.Lookup
+		switch x := v.(type) {
+		case *ssa.Lookup:
+			lk = x
+		case *ssa.Extract:
+			if l2, ok := x.Tuple.(*ssa.Lookup); ok && x.Index == 0 {
+				lk = l2
+			}
+		}
+		if lk == nil || lk.Index != key || key == nil {
+			return false
+		}
+		b, ok := loadOfField(lk.X, fCO)
+		return ok && b == ssa.Value(fn.Params[0])
+	}
 	loop := naturalLoop(hdr)
 	okFilter := true
 	apps := 0
@@ -505,7 +525,7 @@ func rC18OptionList(w *World, r *Report) {
 				if f.Y != nil && (f.Op == token.NEQ || f.Op == token.EQL) {
 					bx, n1 := loadOfFieldNamed(f.Y, "Name")
 					by, n2 := loadOfFieldNamed(f.X, "Name")
-					if (n1 && bx == val && f.X == key) || (n2 && by == val && f.Y == key) {
+					if (n1 && isVal(bx) && f.X == key) || (n2 && isVal(by) && f.Y == key) {
 						isAlias = true
 					}
 				}
@@ -519,13 +539,13 @@ func rC18OptionList(w *World, r *Report) {
 			if c, ok := in.(*ssa.Call); ok && calleeName(c) == "builtin:append" && typeString(c.Type()) == "[]*option.Option" {
 				apps++
 				els, _, _ := elementsOf(c.Call.Args[1], map[ssa.Value]bool{})
-				ru.Check(len(els) == 1 && els[0] == val, "option-scan/append", w.IPos(c), "the record itself is listed", "something other than the table's record is listed")
+				ru.Check(len(els) == 1 && isVal(els[0]), "option-scan/append", w.IPos(c), "the record itself is listed", "something other than the table's record is listed")
 				once := false
 				for _, f := range factsAt(b) {
 					if f.Op == token.EQL && f.Y != nil {
 						bx, n1 := loadOfFieldNamed(f.Y, "Name")
 						by, n2 := loadOfFieldNamed(f.X, "Name")
-						if (n1 && bx == val && f.X == key) || (n2 && by == val && f.Y == key) {
+						if (n1 && isVal(bx) && f.X == key) || (n2 && isVal(by) && f.Y == key) {
 							once = true
 						}
 					}
@@ -585,7 +605,7 @@ func rC18Partition(w *World, r *Report) {
 				okCond := false
 				for _, f := range condFacts(iff.Cond, true, iff) {
 					if f.Op == token.ILLEGAL {
-						if bb, ok := loadOfFieldNamed(f.X, "IsRequired"); ok && bb == elem {
+						if bb, ok := loadOfFieldNamed(f.X, "IsRequired"); ok && sameLoad(bb, elem) {
 							okCond = true
 						}
 					}
@@ -607,7 +627,7 @@ func rC18Partition(w *World, r *Report) {
 					return false
 				}
 				els, _, _ := elementsOf(c.Call.Args[1], map[ssa.Value]bool{})
-				return len(els) == 1 && els[0] == elem
+				return len(els) == 1 && sameLoad(els[0], elem)
 			}
 			okAll, _ := ig.mustPass(ig.edgeStart(hdr, 0), isApp, func(in ssa.Instruction) bool { return in.Block() == hdr && in == hdr.Instrs[0] })
 			if !okAll {
@@ -713,6 +733,22 @@ func elementRenderers(w *World, fn *ssa.Function, elemType string) []*ssa.Functi
 		}
 	}
 	return out
+}
+
+// sameLoad: the same value, or two loads of the same slice element x[i] (same slice value, same index value; go/ssa
+// does not merge repeated reads).
+func sameLoad(a, b ssa.Value) bool {
+	if a == b {
+		return true
+	}
+	ua, ok1 := a.(*ssa.UnOp)
+	ub, ok2 := b.(*ssa.UnOp)
+	if !ok1 || !ok2 || ua.Op != token.MUL || ub.Op != token.MUL {
+		return false
+	}
+	ia, ok1 := ua.X.(*ssa.IndexAddr)
+	ib, ok2 := ub.X.(*ssa.IndexAddr)
+	return ok1 && ok2 && ia.X == ib.X && ia.Index == ib.Index
 }
 
 // usedByRenderLoop: the list (or an append of it) is ranged over and a closure is called on each element.
